@@ -446,6 +446,17 @@ def fam_threads(rng):
             pid += 1
             execs.append(c)
             ctl_exec.append(["adopt", c["pid"]])
+    if rng.random() < 0.35:
+        # a thread payload registered before start whose first action is to execute a coroutine payload:
+        # the call is made while the runtime is still coming up (runners launched, `running` not yet
+        # set); the executed payload still belongs to the one loop / the one trio run of the runtime
+        fl = rng.choice(["aio", "trio"])
+        e = {"pid": pid, "fl": fl, "script": [["spin", 8], ["end", {"kind": "none"}]], "role": "executed"}
+        c = {"pid": pid + 1, "fl": "thr", "role": "caller", "mode": "queued",
+             "script": [["execute", pid], ["end", {"kind": "none"}]]}
+        pid += 2
+        execs += [e, c]
+        before = before + [["adopt", c["pid"]]]
     # coroutine payloads that adopt further payloads of their own flavour in the middle of a
     # checkpoint-free section (the adopted ones must not run before the adopter yields)
     for _ in range(rng.randint(0, 2)):
